@@ -693,6 +693,10 @@ def gen_c08(rng, n, tier):
                     kind = r.choice(["ok", "bad", "short", "empty", "other", "nofrom", "ethtyp", "ethshort", "ethlong", "ethone"])
                     txs[-1] = f"sig:{kind} " + txs[-1]
                     tags.add("mal:sig-" + kind)
+                if r.random() < 0.06:
+                    # an Ethereum transaction whose signature was damaged after signing (its sender may not be recoverable at all)
+                    txs.append(f"ethx {r.choice(['flipr', 'zeror', 'highs', 'chain'])} {r.choice(['u0', 'u1', 'p0'])} {r.choice(['u2', 'n0'])} {r.choice([0, 7])} 21000 {r.choice([1, 1000])}")
+                    tags.add("mal:eth-signature")
                 if r.random() < 0.05:
                     txs.append(f"rawtd {signer} nil {r.choice([0, 0, 1, 1, 2])} {r.choice([0, 0, 1, 1, 2])} {r.choice(['1', '0', '~', '5'])} {r.choice(['nil', 'nil', '00', '0061736d'])}")
                     tags.add("mal:no-receiver")
